@@ -116,7 +116,7 @@ Section Render.
             | JArr v =>
                 match pj_value index with
                 | JNum n => match as_u64 n with
-                            | Some u => nth_error v (N.to_nat u)
+                            | Some u => nth_N v u
                             | None => None
                             end
                 | _ => None
